@@ -126,3 +126,33 @@ Theorem reach_partial5_model dbg idna : IdnaOK idna -> forall u,
   ReachC5 dbg (host_parse idna) host_parse_opaque host_display u ->
   Fixpoint_of_reparse dbg (host_parse idna) host_parse_opaque host_display u /\ wf_b u = true /\ ascii (ser u).
 Proof. intros OK u. exact (reach_partial5 dbg _ _ _ (HostOK2_model idna OK) (host_nonempty_model idna) u). Qed.
+
+(* ================= non-vacuity, on the host model (idna_clean) ================= *)
+Definition m_join (b r : string) : option url :=
+  match parse_url true mhp host_parse_opaque host_display None None (B b) with
+  | POk bu => match parse_url true mhp host_parse_opaque host_display None (Some bu) (B r) with POk u => Some u | _ => None end
+  | _ => None
+  end.
+
+(* http://h/a/b?q#f -> path_segments_mut: push(".<TAB>.") (pops "b": F-C06-7), push("x/y") = http://h/a//x%2Fy?q#f ;
+   a:/p/q -> pop, pop, push(""), push("z w") = a:/z%20w ; a://h -> extend(["a", "..", "%2e", ""]), pop_if_empty =
+   a://h/a/%252e ; joins against http://h/a/b?q#f: "../c d/./e?k" = http://h/c%20d/e?k, "https:x" = https://x/ (base
+   ignored), "zz:/.//p" = zz:/.//p ; each record is a fixpoint *)
+Example reach5_example :
+  match m_hist "http://h/a/b?q#f" [OPathSegments [PPush [46; 9; 46]; PPush (B "x/y")]] with
+  | Some u => list_eqb (ser u) (B "http://h/a//x%2Fy?q#f") && m_fix u | None => false end = true
+  /\ match m_hist "a:/p/q" [OPathSegments [PPop; PPop; PPush []; PPush (B "z w")]] with
+     | Some u => list_eqb (ser u) (B "a:/z%20w") && m_fix u | None => false end = true
+  /\ match m_hist "a://h" [OPathSegments [PExtend [B "a"; B ".."; B "%2e"; []]; PPopIfEmpty]] with
+     | Some u => list_eqb (ser u) (B "a://h/a/%252e") && m_fix u | None => false end = true
+  /\ match m_join "http://h/a/b?q#f" "../c d/./e?k" with
+     | Some u => list_eqb (ser u) (B "http://h/c%20d/e?k") && m_fix u | None => false end = true
+  /\ match m_join "http://h/a/b?q#f" "https:x" with
+     | Some u => list_eqb (ser u) (B "https://x/") && m_fix u | None => false end = true
+  /\ match m_join "http://h/a/b?q#f" "zz:/.//p" with
+     | Some u => list_eqb (ser u) (B "zz:/.//p") && m_fix u | None => false end = true
+  /\ rel_ref (B "../c d/./e?k") = true
+  /\ match parse_url true mhp host_parse_opaque host_display None None (B "http://h/a/b?q#f") with
+     | POk bu => abs_ref bu (B "https:x") && abs_ref bu (B "zz:/.//p") && negb (abs_ref bu (B "http:x")) && abs_ref bu (B "http://x")
+     | _ => false end = true.
+Proof. vm_compute. repeat split. Qed.
